@@ -17,6 +17,8 @@ Each file defines PROP = {...} with:
   require_classes {tier: [class names that must be non-zero, else exit 2]}
   env            extra environment for the test processes
   claimed        False => listed under not_applicable with na_reason
+  parts          optional list of {name, pkg, files, tests, plain, race}: the property is checked by several harness
+                 binaries (one per package); top-level fields are the defaults of every part
 """
 
 import importlib.util
